@@ -39,20 +39,26 @@ Section Loop.
     (finish conv st', conv, saves').
 End Loop.
 
+(* The solvers are written over three abstract kernels (sweep, greedy policy extraction,
+   policy backup) so that the SAME definitions can be instantiated with the specification
+   operators (Bellman.v) and with the code-shaped, layout-dependent kernels (Kernel.v). *)
 Section Solvers.
   Variable M : mdp.
   Variable g : Q.
   Variable eps : Q.
+  Variable SW : list Q -> list Q.                 (* one synchronous sweep *)
+  Variable POL : list Q -> list nat.              (* greedy policy extraction *)
+  Variable EV : list nat -> list Q -> list Q.     (* one policy backup *)
 
   (* ---------------------------------------------------------------- value iteration *)
   Record vist := { v_vals : list Q; v_iter : nat; v_pol : option (list nat) }.
   Definition vi_init (V0 : list Q) : vist := {| v_vals := V0; v_iter := 0; v_pol := None |}.
   Definition vi_step (t : ctest) (st : vist) : vist * bool :=
-    let new := sweep M g (v_vals st) in
+    let new := SW (v_vals st) in
     ({| v_vals := new; v_iter := S (v_iter st); v_pol := v_pol st |},
      Qltb (measure t new (v_vals st)) (vi_threshold g eps)).
   Definition vi_finish (_ : bool) (st : vist) : vist :=
-    {| v_vals := v_vals st; v_iter := v_iter st; v_pol := Some (policy_of M g (v_vals st)) |}.
+    {| v_vals := v_vals st; v_iter := v_iter st; v_pol := Some (POL (v_vals st)) |}.
   Definition vi_solve (t : ctest) (ckpt : bool) (freq k : nat) (st : vist) :=
     solve_gen vist (vi_step t) v_iter ckpt freq vi_finish k st.
 
@@ -60,13 +66,13 @@ Section Solvers.
   Record rvist := { r_vals : list Q; r_iter : nat; r_pol : option (list nat); r_gain : Q }.
   Definition rvi_init (V0 : list Q) : rvist := {| r_vals := V0; r_iter := 0; r_pol := None; r_gain := 0 |}.
   Definition rvi_step (st : rvist) : rvist * bool :=
-    let new0 := sweep M g (r_vals st) in
+    let new0 := SW (r_vals st) in
     let new := map (fun x => Qred (x - r_gain st)) new0 in
     let sp := span_diff new (r_vals st) in
     ({| r_vals := new; r_iter := S (r_iter st); r_pol := r_pol st; r_gain := last new 0 |},
      Qltb sp eps).
   Definition rvi_finish (_ : bool) (st : rvist) : rvist :=
-    {| r_vals := r_vals st; r_iter := r_iter st; r_pol := Some (policy_of M g (r_vals st)); r_gain := r_gain st |}.
+    {| r_vals := r_vals st; r_iter := r_iter st; r_pol := Some (POL (r_vals st)); r_gain := r_gain st |}.
   Definition rvi_solve (ckpt : bool) (freq k : nat) (st : rvist) :=
     solve_gen rvist rvi_step r_iter ckpt freq rvi_finish k st.
 
@@ -100,14 +106,14 @@ Section Solvers.
       Some (Qred (fspan (pvi_discounted_deltas hist hidx period iteration) (length new))).
   Definition pvi_step (st : pvist) : pvist * bool :=
     let it := S (p_iter st) in
-    let new := sweep M g (p_vals st) in
+    let new := SW (p_vals st) in
     let hidx := zmodn (Z.of_nat (p_hidx st) + 1) (S (p_period st)) in
     let hist := match p_hist st with Some h => ll_set h hidx new | None => [] end in
     let conv := pvi_measure new hist hidx (p_period st) it in
     ({| p_vals := new; p_iter := it; p_pol := p_pol st; p_hist := Some hist; p_hidx := hidx; p_period := p_period st |},
      match conv with None => false | Some c => Qltb c eps end).
   Definition pvi_finish (clear : bool) (conv : bool) (st : pvist) : pvist :=
-    {| p_vals := p_vals st; p_iter := p_iter st; p_pol := Some (policy_of M g (p_vals st));
+    {| p_vals := p_vals st; p_iter := p_iter st; p_pol := Some (POL (p_vals st));
        p_hist := if conv && clear then None else p_hist st; p_hidx := p_hidx st; p_period := p_period st |}.
   Definition pvi_solve (clear ckpt : bool) (freq k : nat) (st : pvist) :=
     solve_gen pvist pvi_step p_iter ckpt freq (pvi_finish clear) k st.
@@ -123,7 +129,7 @@ Section Solvers.
       ({| s_vals := new; s_iter := S (s_iter st); s_pol := s_pol st; s_sweeps := S (s_sweeps st) |},
        Qltb (measure t new (s_vals st)) (vi_threshold g eps)).
     Definition savi_finish (_ : bool) (st : savist) : savist :=
-      {| s_vals := s_vals st; s_iter := s_iter st; s_pol := Some (policy_of M g (s_vals st)); s_sweeps := s_sweeps st |}.
+      {| s_vals := s_vals st; s_iter := s_iter st; s_pol := Some (POL (s_vals st)); s_sweeps := s_sweeps st |}.
     Definition savi_solve (t : ctest) (ckpt : bool) (freq k : nat) (st : savist) :=
       solve_gen savist (savi_step t) s_iter ckpt freq savi_finish k st.
   End Savi.
@@ -136,24 +142,44 @@ Section Solvers.
     match k with
     | O => (vals, false)
     | S k' =>
-        let new := sweep_pi M g P vals in
+        let new := EV P vals in
         if Qltb (measure t new vals) (vi_threshold g eps) then (vals, true)
         else eval_loop t k' P new
     end.
   (* _initialize_solver_state_elements: policy from the problem, or greedy w.r.t. zero values *)
   Definition pi_init (init_policy : option (list nat)) (V0 : list Q) : pist :=
     {| pi_vals := V0;
-       pi_pol := match init_policy with Some p => p | None => policy_of M g (repeat 0 (nS M)) end;
+       pi_pol := match init_policy with Some p => p | None => POL (repeat 0 (nS M)) end;
        pi_iter := 0; pi_last_eval_converged := false |}.
   Definition count_changed (a b : list nat) : nat :=
     length (filter (fun ab => negb (Nat.eqb (fst ab) (snd ab))) (combine a b)).
   Definition pi_step (t : ctest) (max_eval : nat) (reset : bool) (V0 : list Q) (st : pist) : pist * bool :=
     let start := if reset then V0 else pi_vals st in
     let '(vals, ok) := eval_loop t max_eval (pi_pol st) start in
-    let newpol := policy_of M g vals in
+    let newpol := POL vals in
     ({| pi_vals := vals; pi_pol := newpol; pi_iter := S (pi_iter st); pi_last_eval_converged := ok |},
      Nat.eqb (count_changed newpol (pi_pol st)) 0).
   Definition pi_finish (_ : bool) (st : pist) : pist := st.
   Definition pi_solve (t : ctest) (max_eval : nat) (reset : bool) (V0 : list Q) (ckpt : bool) (freq k : nat) (st : pist) :=
     solve_gen pist (pi_step t max_eval reset V0) pi_iter ckpt freq pi_finish k st.
 End Solvers.
+
+(* ------------------------------------------------------------------ instantiations *)
+(* specification instance: layout-free *)
+Definition S_vi_step M g eps := vi_step g eps (sweep M g).
+Definition S_vi_solve M g eps := vi_solve g eps (sweep M g) (policy_of M g).
+Definition S_rvi_solve M g eps := rvi_solve eps (sweep M g) (policy_of M g).
+Definition S_pvi_solve M g eps := pvi_solve g eps (sweep M g) (policy_of M g).
+Definition S_savi_solve M g eps := savi_solve M g eps (policy_of M g).
+Definition S_pi_init M g := pi_init M (policy_of M g).
+Definition S_pi_solve M g eps := pi_solve g eps (policy_of M g) (sweep_pi M g).
+(* code-shaped instance: one layout (n_states, max_batch_size, devices), arbitrary padding content *)
+Definition K_vi_solve M g eps n mb d padval padidx :=
+  vi_solve g eps (kernel_sweep M n mb d padval g) (kernel_policy M n mb d padidx g).
+Definition K_rvi_solve M g eps n mb d padval padidx :=
+  rvi_solve eps (kernel_sweep M n mb d padval g) (kernel_policy M n mb d padidx g).
+Definition K_pvi_solve M g eps n mb d padval padidx :=
+  pvi_solve g eps (kernel_sweep M n mb d padval g) (kernel_policy M n mb d padidx g).
+Definition K_pi_init M g n mb d padidx := pi_init M (kernel_policy M n mb d padidx g).
+Definition K_pi_solve M g eps n mb d zidx padval padidx :=
+  pi_solve g eps (kernel_policy M n mb d padidx g) (kernel_eval M n mb d zidx padval g).
